@@ -61,6 +61,13 @@ class Scenario:
         self.spec = {}
         self.has_opt = {}
         self.tag = 1
+        # an RF reader that fetches its metadata reader while the metadata channel is still empty
+        try:
+            self.rf_early = digital_rf.DigitalRFReader(self.top)
+            self.rf_early.read_metadata(self.k, self.k + 10, "ch0")
+        except Exception:  # noqa  (no data yet: judged later)
+            self.rf_early = getattr(self, "rf_early", None)
+        self.rf_first = None
         self.mops = []        # model encoding of the metadata-related ops
         self.iobs = []        # implementation observations, same encoding as the model's output
         self.log = []         # human-readable op log for replays
@@ -305,6 +312,27 @@ class Scenario:
             self.ro("DigitalRFReader.read(s,e,'ch0')", lambda: rdr.read(s, e, "ch0"))
             self.ro("DigitalRFReader.read_vector(s,n,'ch0')", lambda: rdr.read_vector(s, e - s + 1, "ch0"))
             self.ro("DigitalRFReader.read_metadata(s,e,'ch0')", lambda: rdr.read_metadata(s, e, "ch0"))
+        # metadata THROUGH RF readers: a fresh one and one created before anything was written (it got its
+        # metadata reader while the channel was empty) must both return every sample written so far
+        if self.spec:
+            ks = sorted(self.spec)
+            a = rng.choice(ks)
+            bnd = rng.choice([a, ks[-1], rng.choice(ks)])
+            a, bnd = min(a, bnd), max(a, bnd)
+            want = [k for k in ks if a <= k <= bnd]
+            if getattr(self, "rf_first", None) is None:
+                self.rf_first, _e = self.ro("DigitalRFReader(top)", lambda: self.drf.DigitalRFReader(self.top))
+            for name, r in (("fresh", rdr), ("created before the first metadata write", self.rf_early), ("kept since its first use", self.rf_first)):
+                if r is None:
+                    continue
+                out, err = self.ro("DigitalRFReader.read_metadata(a,b,'ch0',method=None)", lambda: r.read_metadata(a, bnd, "ch0", method=None))
+                got = None if out is None else sorted(int(k) for k in out)
+                self.res.count("rf-reader-metadata:" + name.split()[0])
+                if got != want:
+                    self.res.violation("not-visible-through-rf-reader", "DigitalRFReader.read_metadata (%s reader) does not return the "
+                                       "metadata samples written in the range" % name,
+                                       self.replay_input("read_metadata(%d, %d) through a DigitalRFReader %s" % (a, bnd, name)),
+                                       want[:8], got[:8] if got is not None else repr(err)[:200])
         self.res.case(("rfq", self.n, self.d, len(self.log)), nontrivial=False)
         self.res.count("op:rf-reader-queries")
 
